@@ -224,6 +224,12 @@ def run(rep, repo, tier):
     rep.assumptions += ['floating-point rounding of the sum is not decided', 'n >= 1 and s > 0 (C15 bounds)']
     f = repo.function('create_linear_distribution')
     n_t, s_t = S(f.params[0]), S(f.params[1])
+    own_decorators = [d for d in f.node.decorator_list if ast.unparse(d).split('(')[0].split('.')[-1] not in ('staticmethod',)]
+    if own_decorators:
+        # what callers receive is what the decorator makes of the function's result (a normalising wrapper, a cache, ...): the body
+        # alone does not say
+        rep.inconclusive('C17.R1', f.where, 'the distribution function is called as written (no decorator between it and its callers)', got='@' + ast.unparse(own_decorators[0])[:60])
+        return
     it = Interp(repo)
     try:
         effs, rv = it.run(f, {})
@@ -519,6 +525,9 @@ def check_use(rep, repo, f):
             for n_ in ast.walk(m_.node):
                 if isinstance(n_, ast.Call) and isinstance(n_.func, ast.Name) and n_.func.id == g.name:
                     sites += 1
+                    if any(isinstance(a_, ast.Starred) for a_ in n_.args) or any(k_.arg is None for k_ in n_.keywords):
+                        rep.inconclusive('C17.R5', m_.where, '%s passes the requested skew to the list-drawing function' % cls_, got='arguments are unpacked from ' + ast.unparse(n_)[:80], loc='%s:%d' % (m_.relpath, n_.lineno))
+                        continue
                     kw = {k.arg: k.value for k in n_.keywords}
                     arg = n_.args[skew_pos] if len(n_.args) > skew_pos else kw.get(g.params[5])
                     txt = ast.unparse(arg) if arg is not None else None
